@@ -20,6 +20,28 @@ pub fn gauge_value(m: &Metric) -> f64 {
     m.get_gauge().get_value()
 }
 
+#[cfg(feature = "protobuf")]
+pub fn untyped_value(m: &Metric) -> f64 {
+    m.untyped.value()
+}
+#[cfg(not(feature = "protobuf"))]
+pub fn untyped_value(m: &Metric) -> f64 {
+    m.get_untyped().get_value()
+}
+
+#[cfg(feature = "protobuf")]
+pub fn set_untyped(m: &mut Metric, v: f64) {
+    let mut x = prometheus::proto::Untyped::default();
+    x.set_value(v);
+    m.untyped = Some(x).into();
+}
+#[cfg(not(feature = "protobuf"))]
+pub fn set_untyped(m: &mut Metric, v: f64) {
+    let mut x = prometheus::proto::Untyped::default();
+    x.set_value(v);
+    m.set_untyped(x);
+}
+
 /// which payload fields are populated (only the protobuf model can tell)
 #[cfg(feature = "protobuf")]
 pub fn present(m: &Metric) -> Option<Vec<&'static str>> {
@@ -94,6 +116,7 @@ pub fn metric_json(m: &Metric, t: MetricType) -> Value {
     }
     o["counter"] = fnum(counter_value(m));
     o["gauge"] = fnum(gauge_value(m));
+    o["untyped"] = fnum(untyped_value(m));
     if t == MetricType::HISTOGRAM {
         let h = m.get_histogram();
         let b: Vec<Value> = h.get_bucket().iter().map(|b| json!([fnum(b.upper_bound()), b.cumulative_count()])).collect();
